@@ -699,6 +699,100 @@ def tubs_family(ctx, impl):
     ctx.sample(dict(tubs_case=case, entered=ent))
 
 
+BROKER_CALL_WITNESSES = (
+    "smdmdTR",      # a paused sender; application calls and two decrefs queue up behind it
+    "smdR",         # one call to the peer's Broker behind one application call
+    "smgoaR",       # decgift, directly and through TheirReferenceUnslicer.ackGift
+    "sdgR",         # only calls to the peer's Broker are queued
+    "scdnfgR",      # callRemote routes (decref with an answer, getReferenceByName, Broker.freeYourReference) next to callRemoteOnly
+    "SmdRgoRa",     # a callRemoteOnly that pauses twice; more calls are issued between the two pauses
+    "mdgmDT",       # idle sender
+    "mDTdDTgDTaDTm",  # idle sender, every call delivered and entered before the next is issued
+    "mmTsdDgRmfDTaR",  # idle, then paused, with deliveries in between
+)
+
+
+def judge_broker_calls(r):
+    """the property's rule on one history that mixes application calls with calls to the peer's Broker object"""
+    bad = []
+    want = [c for c, _ in r["issued"]]
+    meth = dict(r["issued"])
+    for when, ent in (("before the final quiescence", r["entered"]), ("", r["final"])):
+        cids = [c for c, _ in ent]
+        if len(set(cids)) != len(cids):
+            bad.append(("oracle/duplicate-entry", "a call was entered more than once %s: %r" % (when, ent)))
+        elif cids != sorted(cids):
+            bad.append(("oracle/order", "issued in the order %r, entered in the order %r %s" % (r["issued"], ent, when)))
+        elif any(meth.get(c) != m for c, m in ent):
+            bad.append(("oracle/wrong-method", "issued %r, entered %r %s" % (r["issued"], ent, when)))
+        if bad:
+            return bad
+    if [c for c, _ in r["final"]] != want:
+        bad.append(("oracle/lost-call", "issued %r, entered only %r%s" % (r["issued"], r["final"],
+                    " (the connection was dropped)" if any(r["lost"]) else "")))
+    wrong = {c: v for c, v in r["results"].items() if v != (c if meth[c] != "decref" else None)}
+    if wrong and not bad:
+        bad.append(("oracle/wrong-answer", "answers %r to the calls %r" % (wrong, r["issued"])))
+    if r["gifts_left"] and not bad:
+        bad.append(("oracle/lost-call", "decgift was entered for %r but the gifts %r are still held" % (r["final"], r["gifts_left"])))
+    if any(r["lost"]) and not bad:
+        bad.append(("oracle/connection-lost", "the connection was dropped"))
+    return bad
+
+
+def broker_calls_family(ctx, impl):
+    """calls addressed to the peer's Broker object (remote_broker, clid 0: decref / decgift / getReferenceByName, by
+    callRemote and callRemoteOnly, directly and through Broker.freeYourReference / TheirReferenceUnslicer.ackGift)
+    interleaved with application calls on the same connection, while the sender is idle and while it is paused in a
+    streaming argument; entry into the receiving Broker's own remote_ methods is logged together with the application's"""
+    rng = ctx.rng
+    reported = {}
+
+    def go(ops, d, chunks, fixed=False):
+        r = impl.run_broker_calls(list(ops), d, chunks)
+        nb = sum(1 for _, m in r["issued"] if m != "m")
+        ctx.case(["broker-calls", "".join(ops), d, chunks], nontrivial=len(r["issued"]) >= 3 and 0 < nb < len(r["issued"]))
+        ctx.hist("broker_calls_to_peer_broker", nb)
+        ctx.hist("broker_calls_sender", "paused" if ("s" in ops or "S" in ops) else "idle")
+        for sig, what in judge_broker_calls(r):
+            if reported.get(sig, 0) >= 2:
+                continue
+            reported[sig] = reported.get(sig, 0) + 1
+            small = list(ops)
+            if not fixed:
+                def still(o2):
+                    try:
+                        return any(sg == sig for sg, _ in judge_broker_calls(impl.run_broker_calls(list(o2), d, chunks)))
+                    except Exception:
+                        return False
+                small = common.shrink_list(list(ops), still, max_rounds=40)
+                if len(small) < len(ops):
+                    r2 = impl.run_broker_calls(small, d, chunks)
+                    w2 = [w for sg, w in judge_broker_calls(r2) if sg == sig]
+                    if w2:
+                        r, what = r2, w2[0] + " (shrunk)"
+                    else:
+                        small = list(ops)
+            ctx.fail(sig, "calls to the peer's Broker object mixed with application calls, direction %d: %s [ops %s: m/o application "
+                     "callRemote/callRemoteOnly, s/S the same with an argument that pauses on 1/2 Deferreds, d/c decref by callRemoteOnly/"
+                     "callRemote, f Broker.freeYourReference, g decgift by callRemoteOnly, a TheirReferenceUnslicer.ackGift, n "
+                     "getReferenceByName, R release the pause, D deliver, T one eventual turn; chunks %r]"
+                     % (d, what, "".join(small), chunks),
+                     replay=dict(family="broker-calls", ops="".join(small), d=d, chunks=chunks, result=r))
+        return r
+    # fixed part (independent of the random stream)
+    for w in BROKER_CALL_WITNESSES:
+        for d in (0, 1):
+            r = go(w, d, None, fixed=True)
+    ctx.sample(dict(broker_calls=BROKER_CALL_WITNESSES[-1], entered=r["final"]))
+    # random part
+    for i in range(ctx.n(80, 2500)):
+        ops = [rng.choice("mmosSddcggafnRRDTT") for _ in range(rng.randint(3, 16))]
+        if i % 3 == 0:
+            ops[0] = rng.choice("sS")
+        go(ops, i % 2, rand_chunks(rng))
+
+
 def judge_negotiated(r):
     bad = []
     if not r.get("master_attached") or "entered" not in r:
@@ -908,6 +1002,10 @@ def run(ctx):
         "with the others and validate them against the same model",
         "the kind of target (Referenceable with / without RemoteInterface / bound method / function) is not a model notion: Broker._doCall must invoke either kind "
         "directly (shape fact, fail closed); calls to all three kinds are mixed in the scenarios and validated against the same model",
+        "calls addressed to the peer's Broker object itself (remote_broker, clid 0: decref / decgift / getReferenceByName, issued by "
+        "callRemote / callRemoteOnly, Broker.freeYourReference, TheirReferenceUnslicer.ackGift) are remote methods of the same "
+        "connection: family broker-calls mixes them with application calls on an idle and on a paused sender and logs entry into "
+        "Broker.remote_decref / remote_decgift / remote_getReferenceByName together with the application methods (direct oracle only)",
     ]
     ok, log = ctx.coq_build(["props/C04.vo"])
     from harness import c04_impl as impl
@@ -1064,6 +1162,8 @@ def run(ctx):
             if "step_quick" in c:
                 c["step"] = ctx.n(c.pop("step_quick"), 1)
     negotiated_family(ctx, impl, fixed)
+    # 3d. calls to the peer's Broker object (decref / decgift / getReferenceByName) mixed with application calls
+    broker_calls_family(ctx, impl)
     # 4. correspondence
     model_ok = ok
     if not ok:
